@@ -2,8 +2,8 @@
    `code_small cs = true`): both are theorems now (Proof/A64WfProg.v) under boolean guards on the PROGRAM handed to the
    code generator (Sem/WfGuard64.v):
      labels_guard      the label texts are unambiguous (known finding label-collision-name-digits outside it)
-     imm_guard_a64     a type declares at most 1024 xtors (`ADD Xt, Xt, #4k`: a real limit of the back end), a
-                       Substitute lists at most 4096 pairs; this also gives tags_i64
+     imm_guard_a64     a type declares at most 1024 xtors (`ADD Xt, Xt, #4k`: a real limit of the back end); this also
+                       gives tags_i64
      reach_guard_a64   28 + cg_fine_defs 14 74 < 262143 instructions (two-weight size bound, Proof/SizeA64Fine.v): every
                        B.cond / ADR target within +-1 MiB (a real limit of the back end), and the code fits the image
    `calls_guard` follows from the linear discipline (Proof/X86WfCor.lin_check_calls_guard). *)
@@ -89,7 +89,7 @@ Definition wide_type_prog (n : nat) : prog :=
 Lemma asm_wf_xtors_needed :
   let p := wide_type_prog 1026 in
   labels_guard p = true /\ lin_check_prog p = true /\ plain_names p = true /\ plain_types p = true /\
-  imm_guardP A64_SUBST_MAX 1026 any_lit p = true /\ imm_guard_a64 p = false /\ reach_guard_a64 p = true /\
+  imm_guardP 1026 any_lit p = true /\ imm_guard_a64 p = false /\ reach_guard_a64 p = true /\
   exists cs n lc', a64_compile p 0 = Backend.Ok (cs, n, lc') /\
     asm_wf cs = Some "operand not encodable in its instruction form"%string /\
     In (ADDI (X 5) (X 5) 4100) cs.
